@@ -14,8 +14,11 @@
      ("parse" eh le asize addr #bytes) -> (model_entries model_tables)
      ("table" caf daf (cie instr...) "cie") / (... loc (fde instr...)) ->
                             (model_table spec_table domain raw_cie_instrs raw_fde_instrs)
-     ("instrs" le asize (instr...)) -> (#bytes wf model_split spec_split) *)
-From PV Require Import Base.Outcome Spec.C06View.
+     ("instrs" le asize (instr...)) -> (#bytes wf model_split spec_split)
+     ("dwarfinfo" section_debug section_eh name_debug name_eh (call...)) with name = "none" | #bytes and
+                  call = 0 (CFI_entries) | 1 (EH_CFI_entries), on ONE DWARFInfo holding both sections
+                  -> (#bytes_debug #bytes_eh wf (model answer per call) (spec answer per call)) *)
+From PV Require Import Base.Outcome Spec.C06View Model.C06Dwarfinfo.
 Open Scope string_scope.
 Open Scope Z_scope.
 
@@ -226,6 +229,28 @@ Definition op_instrs (l : list sx) : sx :=
              (parse_instructions (Datatypes.S (length bs)) T bs 0 (zlen bs));
       sx_ok (SL [SL (map (fun i => sx_instr (to_raw i)) is); SI (zlen bs)])].
 
+Definition g_name (x : sx) : option (list Z) := match x with SB b => Some b | _ => None end.
+
+Definition entries_sx (r : res (list entry)) : sx := model_entries r.
+
+Definition op_dwarfinfo (l : list sx) : sx :=
+  let sd := g_section (nthx 1 l) in
+  let se := g_section (nthx 2 l) in
+  let calls := map gbool (gL (nthx 5 l)) in
+  let di := mkdwarfinfo (Some (mkdsd (encode_section sd) (g_name (nthx 3 l)) 0
+                                     (zlen (encode_section sd)) (s_addr sd)))
+                        (Some (mkdsd (encode_section se) (g_name (nthx 4 l)) 0
+                                     (zlen (encode_section se)) (s_addr se)))
+                        (mkstructs (s_le sd) 32 (Z.of_nat (s_asize sd))) in
+  let spec_of (s : ssection) : sx :=
+    sx_ok (SL (map (fun p => SL [sx_entry (fst p); spec_link (snd p)])
+                   (combine (expected_entries s) (s_entries s)))) in
+  SL [SB (encode_section sd); SB (encode_section se);
+      sx_bool (negb (s_eh sd) && s_eh se && Bool.eqb (s_le sd) (s_le se)
+               && (s_asize sd =? s_asize se)%nat && wf_section sd && wf_section se);
+      SL (map entries_sx (cfi_calls di calls));
+      SL (map (fun eh : bool => spec_of (if eh then se else sd)) calls)].
+
 Definition dispatch (req : sx) : sx :=
   let l := gL req in
   let op := gS (nthx 0 l) in
@@ -233,4 +258,5 @@ Definition dispatch (req : sx) : sx :=
   else if (op =? "parse")%string then op_parse l
   else if (op =? "table")%string then op_table l
   else if (op =? "instrs")%string then op_instrs l
+  else if (op =? "dwarfinfo")%string then op_dwarfinfo l
   else sx_err "unknown-op".
